@@ -8,24 +8,27 @@ PROP = "C09"
 ENGINE = "walk"
 LEAN_MODULES = ["RtoscModel.Props.C09"]
 THEOREMS = ["Rtosc.Walk.walk_eq_enumerate_partial", "Rtosc.Walk.walk_eq_enumerate_root_partial",
-            "Rtosc.Walk.walk_eq_enumerate_counterexample", "Rtosc.Walk.walk_eq_code",
+            "Rtosc.Walk.walk_eq_enumerate_counterexample", "Rtosc.Walk.walk_eq_code", "Rtosc.Walk.enumerate_count",
             "Rtosc.Walk.walk_restores_buffer", "Rtosc.Walk.walk_restores_buffer_root",
             "Rtosc.Walk.walked_address_dispatches", "Rtosc.Walk.walked_address_dispatches_only",
             "Rtosc.Walk.apart_of_headsApart",
             "Rtosc.Walk.walk_prunes_partial", "Rtosc.Walk.walk_prunes_gate", "Rtosc.Walk.walk_prunes_toggle",
+            "Rtosc.Walk.walk_prunes_subport_toggle",
             "Rtosc.Walk.walk_needs_room", "Rtosc.Walk.empty_buffer_needs_zero", "Rtosc.Walk.leading_hash_literal"]
 HARNESS = {"src": ["walk.cpp"], "deps": ["common.h", "walk_rt.h"]}
 RULE = ("W (runtime == NULL, dynamic tables, names and the caller's buffer in exact-size heap blocks): random port trees of "
         "depth 1..4 with 1..4 rows per table; names head #N text … ['/'] [:types] with 0..2 enumerations in sub-tree names "
         "(N in 1..3, sometimes 10..12), text behind a number '/b', 'b', '/c/d' or nothing, multi-component names such as "
         "a#3/b#2/c/; leaves with 0, 1 and (rarely, finding C09-K1) 2 enumerations, trailing '/', the type parts none ':i' "
-        "'::i' ':s:' '::T:F' ':'; siblings with prefix-unrelated heads (strict dispatch check) and, in a 'messy' share, clashing "
+        "'::i' ':s:' '::T:F' ':'; 7% of the sub-tree names without their trailing '/' as in test/walk-ports.cpp (enumeration and buffer are "
+        "judged, dispatch is not: such a port cannot be dispatched into; not covered by the theorems); siblings with prefix-unrelated heads (strict dispatch check) and, in a 'messy' share, clashing "
         "ones (weak dispatch check); buffers holding the prefixes '' (all-zero / second byte zero then junk) '/' '/pre/' '/p' "
         "and a long one, junk bytes behind the terminator, of exactly the needed size (half of the cases) or larger; the "
         "options expand_bundles=false and ranges=true (model comparison only); a malformed stream (sub-tree names without "
         "'/', '#0', '#' first, '##', ':' in front of '#', '#' without digits) in zeroed ample buffers (model comparison "
         "only).  R (runtime object): the three compiled trees of harness/walk_rt.h (rRecur/rRecurp/rRecurs/rRecursp/rSelf/"
-        "rEnabledBy, depth 3, 90 leaves) under random assignments of every toggle and every pointer.  For every reported "
+        "rEnabledBy — at the level of the guarded port, inside the guarded sub-tree, and on a table's own self: port —, depth "
+        "3, about 100 leaves) under random assignments of every toggle and every pointer.  For every reported "
         "pair the address is sent back through Ports::dispatch.  non-trivial: the tree has a '#' or a sub-table; distinct = "
         "distinct op line")
 ASSUMPTIONS = ["port names have the form head #N1 text1 … #Nk textk ['/'] [:types]: literal text without NUL # { * :, numbers "
@@ -37,12 +40,13 @@ ASSUMPTIONS = ["port names have the form head #N1 text1 … #Nk textk ['/'] [:ty
                "at by walk_ports); an empty buffer has a second NUL byte (ports.h asks for an all-zero buffer)",
                "dispatch of a reported address: every digit run of the address is below 2^31 (C05's IdxBounded); 'only the "
                "reported port' needs sibling names that do not answer to a common address",
-               "runtime clause: 'enabled by' names a toggle of the same table (for a sub-tree port: of the table that "
-               "contains it); the query path (get_value_from_runtime, Capture, the callbacks) is tied by correspondence only; "
+               "runtime clause: 'enabled by' names a toggle of the table that contains the guarded port, or (form "
+               "name/toggle) of the guarded sub-tree's own table; the query path (get_value_from_runtime, Capture, the callbacks) is tied by correspondence only; "
                "addresses shorter than 1000 characters (walk_ports_recurse copies into char[1024])",
                "expand_bundles=false / ranges=true are compared with the model but are not part of the statement"]
 TRUSTED = ["hand-written model RtoscModel/Walk/{Buf,Model}.lean of walk_ports, walk_ports_recurse0, walk_ports_recurse, "
-           "port_is_enabled, bundle_foreach, scat, and of atoi / snprintf(\"%d\") / strlen as used there",
+           "port_is_enabled, bundle_foreach, scat (with fixes/C09-recurse0-strchr, C09-recurse0-index-text, "
+           "C09-enabled-subport-runtime applied), and of atoi / snprintf(\"%d\") / strlen as used there",
            "C05's model of rtosc_match (dispatch of the reported addresses), C17's model of the metadata reader, C18's models "
            "of Ports::operator[] and collapsePath, imported unchanged",
            "abstract runtime object (child object or NULL per sub-tree address, answer per toggle) in place of the callbacks"]
@@ -54,7 +58,7 @@ LEVEL_TEXT = ("Lean theorems: walk_eq_enumerate_partial / walk_restores_buffer /
 LEVEL_NOTE = ("walk_eq_enumerate is partial: leaf names with more than one '#' are excluded (known finding C09-K1, "
               "walk_eq_enumerate_counterexample).  walk_prunes is partial: proved on the abstract runtime for NULL pointers "
               "over the whole tree (walk_prunes_partial) and for the toggles one level at a time (walk_prunes_gate, "
-              "walk_prunes_toggle); the full clause walk_prunes_statement is checked by correspondence and oracle on the "
+              "walk_prunes_toggle, walk_prunes_subport_toggle); the full clause walk_prunes_statement is checked by correspondence and oracle on the "
               "compiled trees only")
 TECHNIQUE = "machine-checked proof over a hand-written executable model + differential correspondence + independent oracle"
 
@@ -139,7 +143,7 @@ def text_ok(t):
     return not (set(t) & BAD_TEXT)
 
 
-def name_ok(w, is_sub):
+def name_ok(w, is_sub, strict=True):
     if not text_ok(w.head):
         return False
     for k, (ds, t) in enumerate(w.parts):
@@ -153,17 +157,21 @@ def name_ok(w, is_sub):
     if not w.slash and last.endswith(b"/"):
         return False
     if is_sub:
-        if not w.head or not w.slash or any(int(ds) < 1 for ds, _ in w.parts):
+        if not w.head or any(int(ds) < 1 for ds, _ in w.parts):
+            return False
+        if strict and not w.slash:
             return False
     return True
 
 
-def tree_ok(ports):
+def tree_ok(ports, strict=True):
+    """strict: the trees of the theorems.  not strict: a sub-tree name may lack its trailing '/' (the walker
+    appends it, test/walk-ports.cpp walks such tables; dispatch cannot descend into such a port)"""
     for p in ports:
         w = parse_name(p.name)
-        if not name_ok(w, p.sub is not None):
+        if not name_ok(w, p.sub is not None, strict):
             return False
-        if p.sub is not None and not tree_ok(p.sub):
+        if p.sub is not None and not tree_ok(p.sub, strict):
             return False
     return True
 
@@ -304,7 +312,7 @@ def rand_name(rng, is_sub, heads_used, messy, stats):
         last = k == nparts - 1
         t = rng.choice(TEXTS_LAST if last else TEXTS_MID)
         parts.append((b"%d" % n, t))
-    slash = True if is_sub else rng.random() < 0.12
+    slash = (rng.random() < 0.93) if is_sub else rng.random() < 0.12
     last = parts[-1][1] if parts else head
     body = head + render_parts(parts)
     if not slash and last.endswith(b"/"):
@@ -360,12 +368,13 @@ def make_buffer(rng, prefix, room, stats):
 def gen_static(rng, tier, stats):
     st = stats.setdefault("static", {"trees": 0, "messy": 0, "exact_size": 0, "empty_prefix": 0, "k1_trees": 0,
                                      "ranges": 0, "no_expand": 0, "depth_hist": {}, "calls_hist": {}})
-    ntrees = 3000 if tier == "quick" else 60000
+    ntrees = 9000 if tier == "quick" else 120000
     for _ in range(ntrees):
         depth = rng.choice([1, 2, 2, 3, 3, 4])
         messy = rng.random() < 0.2
         tree = rand_tree(rng, depth, messy, st, 400)
-        assert tree_ok(tree), show_tree(tree)
+        assert tree_ok(tree, False), show_tree(tree)
+        st["slashless_subtree_names"] = st.get("slashless_subtree_names", 0) + (not tree_ok(tree))
         prefix = rng.choice(PREFIXES)
         eff = prefix or b"/"
         nd = need(tree)
@@ -397,7 +406,7 @@ MALFORMED_LEAF = [b"x#0", b"x#", b"x#a", b"x##2", b"x#2#2", b"x:#2", b"#2", b"x#
 
 def gen_malformed(rng, tier, stats):
     st = stats.setdefault("malformed", {"cases": 0})
-    n = 300 if tier == "quick" else 5000
+    n = 600 if tier == "quick" else 8000
     for _ in range(n):
         leaf = Port(rng.choice(MALFORMED_LEAF + [b"x", b"y#2"]), None, None)
         rows = [Port(rng.choice(MALFORMED_SUB), None, [leaf, Port(b"z", None, None)])]
@@ -574,7 +583,7 @@ def pruned(table, obj, pre, path=()):
 def gen_runtime(rng, tier, stats):
     st = stats.setdefault("runtime", {"cases": 0, "per_tree": {}, "self_disabled_root": 0})
     trees = compiled_trees()
-    n = 1200 if tier == "quick" else 25000
+    n = 3000 if tier == "quick" else 40000
     for _ in range(n):
         tid = rng.choice([0, 0, 0, 1, 1, 2])
         ts = trees[tid]
@@ -646,8 +655,9 @@ def oracle(op, out):
         if w[3] != "10":
             return None
         tree = parse_tree(w[1])
-        if not tree_ok(tree):
+        if not tree_ok(tree, False):
             return None
+        strict = tree_ok(tree)
         buf = unhx(w[2])
         prefix = buf[:buf.index(0)]
         eff = prefix or b"/"
@@ -661,7 +671,7 @@ def oracle(op, out):
         if got is None:
             return "unreadable output: " + out[:80]
         want = enumerate_tree(tree, eff)
-        return check_calls(got, want, got[1], eff, tree, lambda ix: disp_mode(tree, ix))
+        return check_calls(got, want, got[1], eff, tree, (lambda ix: disp_mode(tree, ix)) if strict else (lambda ix: "skip"))
     # runtime
     table = parse_tree(w[2])
     obj = parse_obj(w[3])
@@ -688,8 +698,9 @@ def known(op, impl_out, model_out, defs):
     if not w or w[0] != "W" or w[3] != "10":
         return None
     tree = parse_tree(w[1])
-    if not tree_ok(tree) or not multi_hash_leaf(tree):
+    if not tree_ok(tree, False) or not multi_hash_leaf(tree):
         return None
+    strict = tree_ok(tree)
     if model_out is not None and impl_out != model_out:
         return None
     got = parse_out(impl_out)
@@ -707,7 +718,7 @@ def known(op, impl_out, model_out, defs):
         for i in eix[:-1]:
             p = p[i].sub
         leaf = p[eix[-1]]
-        if len(parse_name(leaf.name).parts) >= 2 or disp_mode(tree, eix) == "skip":
+        if len(parse_name(leaf.name).parts) >= 2 or not strict or disp_mode(tree, eix) == "skip":
             continue
         if d is None or ix not in d:
             return None
